@@ -537,15 +537,9 @@ func (d *cfgDynamic) getValue(opts *options) (value, error) {
 	// reused only if none of the references resolved when computing it is
 	// active now: the evaluation would take exactly the same steps again.
 	if cached, ok := opts.parsed[id]; ok {
-		usable := true
-		for _, name := range cached.deps {
-			if opts.activeFields.Has(name) {
-				usable = false
-				break
-			}
-		}
+		usable := !cached.deps.anyActive(opts.activeFields)
 		if usable {
-			opts.eval.add(cached.deps...)
+			opts.eval.addSet(cached.deps)
 			if cached.err != nil {
 				return nil, cached.err
 			}
